@@ -315,7 +315,7 @@ func (c15Engine) Exec(t *testing.T, cc any) *simrt.Result {
 		evs := (&CacheCase{Events: c.Events}).build()
 		model := &c15Model{cap: c.Cap, evs: evs, by: idsOf(evs)}
 		h := mocrelay.NewCacheHandler(c.Cap)
-		cache := h.VerifCache()
+		cache := cacheOf(h)
 
 		recs := make([][]*c15Rec, len(c.Clients))
 		cur := make([]*c15Rec, len(c.Clients)) // op in progress per client
